@@ -1127,6 +1127,11 @@ func runH2(c H2Case, checkC10 bool) (fails []vstat.Failure) {
 			}
 			if strings.HasPrefix(v.Key, want) {
 				r.fails = append(r.fails, v)
+			} else if checkC10 && v.Key == "C09:frame-size" {
+				// the harness' framer reads oversize frames; a conforming endpoint answers FRAME_SIZE_ERROR and
+				// decodes nothing further on the connection: for C10 that is every later element lost
+				v.Key = "C10:frame-a-conforming-receiver-rejects"
+				r.fails = append(r.fails, v)
 			}
 		}
 		e.mu.Unlock()
